@@ -185,6 +185,14 @@ def gen_data(rng):
         else:
             o = rng.choice(nodes)
         g.add((s, p, o))
+    if rng.random() < 0.3:
+        # an IRI and a plain literal spelling that IRI as values of one predicate (of one focus node or of two): different terms
+        iris = [n for n in nodes if isinstance(n, URIRef)]
+        n_, p_, s_ = rng.choice(iris), URIRef(rng.choice(PREDS)), rng.choice(nodes)
+        g.add((s_, p_, n_))
+        g.add((rng.choice([s_, s_] + nodes), p_, rdflib.Literal(str(n_))))
+        if rng.random() < 0.5:
+            g.add((n_, RDF.type, rng.choice(S.CLASSES)))
     for _ in range(rng.randint(0, 2)):
         g.add((rng.choice(S.CLASSES), RDFS.subClassOf, rng.choice(S.CLASSES)))
     if rng.random() < 0.3:
